@@ -943,5 +943,155 @@ Proof.
         -- split; [intros _; apply pos_set_pos|]. unfold nonterminal. rewrite G2, Mb. discriminate.
 Qed.
 
+Lemma step_structW i j c a b fa fb psq1 psq2 s s' :
+  fa + fb <= n -> get_node g1 i = Some a -> get_node g2 j = Some b -> struct_ok g1 g2 ne true alts R a b = true ->
+  eqn s s' -> skipws s = true ->
+  orelW i j c s s' (P1 (S fa) i psq1 s) (P2 (S fb) j psq2 s').
+Proof.
+  intros L G1 G2 H Es Ks. unfold struct_ok in H.
+  apply andb_true_iff in H as [H HK]. apply andb_true_iff in H as [H Su]. apply andb_true_iff in H as [Pa Pb].
+  apply eqb_prop in Su.
+  destruct (n_kind a) eqn:Ka; destruct (n_kind b) eqn:Kb; try discriminate HK.
+  - (* KSeq, KSeq *)
+    apply (finishW i j c a b (anyT (n_kids a)) fa fb psq1 psq2 s s' G1 G2); try (rewrite ?Ka, ?Kb; reflexivity); try assumption.
+    { intros [d q]. apply (atrue_seq0 g1 ne d i a G1 Ka q). }
+    rewrite (body_seq _ _ _ _ Ka Pa), (body_seq _ _ _ _ Kb Pb).
+    pose proof (seq_align_simW _ _ _ fa fb L HK true true [] [] s s' Es Ks) as Z.
+    destruct Z as [Z|[Z|Z]]; [rewrite Z; left; reflexivity | rewrite Z; right; left; reflexivity |].
+    destruct (seq_loop (P1 fa) true (n_kids a) [] s) as [r1 s1|s1|w1],
+             (seq_loop (P2 fb) true (n_kids b) [] s') as [r2 s2|s2|w2]; try contradiction.
+    + destruct Z as (E & CT & d1 & d2 & E1 & E2 & D & F). cbn [app] in E1, E2. subst r1 r2.
+      destruct D as (D1 & D2 & D3). right; right.
+      destruct d1 as [|v1 d1], d2 as [|v2 d2].
+      * split; [exact E|]. split; [exact CT | left]. split; [reflexivity|]. split; [reflexivity|].
+        intro q. apply (F q). reflexivity.
+      * exfalso. assert (X : v2 :: d2 = []) by (apply D3; reflexivity). discriminate.
+      * exfalso. assert (X : v1 :: d1 = []) by (apply D3; reflexivity). discriminate.
+      * split; [exact E|]. split; [exact CT|]. right; right; right. exists (v1 :: d1), (v2 :: d2).
+        repeat split; try assumption; discriminate.
+    + destruct Z as (E & CT). right; right.
+      split; [apply eqxn_set_pos_l; apply eqxn_set_pos_r; exact E | eapply ctx3_trans; [apply ctx3_set_pos | exact CT]].
+    + right; right. exact I.
+  - (* KSeq, KPlus: x (s x')* against e+[t] *)
+    destruct (n_kids a) as [|x [|st [|? ?]]] eqn:Kia; try discriminate HK.
+    destruct (n_kids b) as [|e [|? ?]] eqn:Kib; try discriminate HK.
+    destruct (n_sep b) as [t|] eqn:Seb; [|discriminate HK].
+    destruct (star_sep g1 st) as [[s0 x']|] eqn:SS; [|discriminate HK].
+    apply andb_true_iff in HK as [HK Ax']. apply andb_true_iff in HK as [HK Ax].
+    apply andb_true_iff in HK as [HK Hs]. apply andb_true_iff in HK as [Hx Hx'].
+    apply (finishW i j c a b True fa fb psq1 psq2 s s' G1 G2); try (rewrite ?Ka, ?Kb; reflexivity); try assumption;
+      try (intros _; exact I).
+    rewrite (body_seq _ _ _ _ Ka Pa). rewrite (body_rep (P2 fb) fb b e s' (or_intror Kb) Pb Kib). rewrite Kia, Kb, Seb.
+    pose proof (sepform_coreW x st s0 x' e t fa fb fb true [] s s' L SS Hx Hx' Hs Ax Ax' Es Ks) as Z.
+    destruct Z as [Z|[Z|Z]]; [rewrite Z; left; reflexivity | rewrite Z; right; left; reflexivity |].
+    destruct (seq_loop (P1 fa) true [x; st] [] s) as [r1 s1|s1|w1],
+             (rep_loop (P2 fb) e (Some t) true fb true [] s') as [r2 s2|s2|w2]; try contradiction.
+    + destruct Z as (E & CT & d1 & d2 & E1 & E2 & D1 & D2 & N1 & N2). cbn [app] in E1. subst r1 r2.
+      right; right. destruct d1 as [|v1 d1]; [congruence|].
+      split; [exact E|]. split; [exact CT|]. right; right; right. exists (v1 :: d1), d2.
+      repeat split; try assumption; discriminate.
+    + destruct Z as (E & CT). right; right.
+      split; [apply eqxn_set_pos_l; exact E | eapply ctx3_trans; [apply ctx3_set_pos | exact CT]].
+    + right; right. exact I.
+  - (* KChoice, KChoice *)
+    apply andb_true_iff in HK as [HK C2]. apply andb_true_iff in HK as [HK C1].
+    apply (finishW i j c a b True fa fb psq1 psq2 s s' G1 G2); try (rewrite ?Ka, ?Kb; reflexivity); try assumption;
+      try (intros _; exact I).
+    rewrite (body_choice _ _ _ _ Ka Pa), (body_choice _ _ _ _ Kb Pb). rewrite <- (eqn_pos _ _ Es).
+    pose proof (choice_simW _ _ HK C1 C2 fa fb L (pos s) s s' Es Ks) as Z.
+    destruct Z as [Z|[Z|Z]]; [rewrite Z; left; reflexivity | rewrite Z; right; left; reflexivity |].
+    destruct (choice_loop (P1 fa) (pos s) (n_kids a) s) as [r1 s1|s1|w1],
+             (choice_loop (P2 fb) (pos s) (n_kids b) s') as [r2 s2|s2|w2]; try contradiction.
+    + destruct Z as (E & CT & [[E1 E2]|[T1 T2]]).
+      * subst r1 r2. cbn [is_none]. right; right.
+        split; [apply eqn_eqxn; apply eqn_reg_fail; exact E | eapply ctx3_trans; [apply ctx3_reg_fail | exact CT]].
+      * rewrite (tt_not_none _ (proj1 T1)), (tt_not_none _ (proj1 T2)). right; right.
+        split; [exact E|]. split; [exact CT|]. right; right; right. exists [r1], [r2].
+        repeat split; try (apply accok1; assumption); discriminate.
+    + right; right. exact I.
+  - (* KChoice, KRegex: weak mode *)
+    apply (step_choice_regex i j c a b oid fa fb psq1 psq2 s s' L G1 G2 Ka Kb Pa Su HK Es Ks).
+  - (* KOpt *)
+    destruct (n_kids a) as [|x [|? ?]] eqn:Kia; try discriminate HK.
+    destruct (n_kids b) as [|y [|? ?]] eqn:Kib; try discriminate HK.
+    apply andb_true_iff in HK as [HK C2]. apply andb_true_iff in HK as [HK C1].
+    unfold cho_ok in C1, C2. rewrite Kia in C1. rewrite Kib in C2. cbn [forallb] in C1, C2.
+    rewrite andb_true_r in C1, C2.
+    apply (finishW i j c a b False fa fb psq1 psq2 s s' G1 G2); try (rewrite ?Ka, ?Kb; reflexivity); try assumption.
+    { intros [d q]. apply (atrue_kind_false g1 ne d i a G1 (or_introl Ka) q). }
+    unfold body. rewrite Ka, Kb, Kia, Kib. rewrite <- (eqn_pos _ _ Es).
+    pose proof (kid_strongW fa fb x y L HK false false s s' Es Ks) as O.
+    destruct O as [O|[O|O]]; [rewrite O; left; reflexivity | rewrite O; right; left; reflexivity |].
+    destruct (P1 fa x false s) as [r1 s1|s1|w1], (P2 fb y false s') as [r2 s2|s2|w2]; try contradiction.
+    + destruct O as (E & CT & V & N1 & N2 & AT). destruct V as (Gd1 & Gd2 & T & Nn). specialize (Nn eq_refl).
+      right; right. split; [exact E|]. split; [exact CT|]. destruct (is_none r1) eqn:I1.
+      * right; left. destruct r1; try discriminate. destruct r2; try discriminate.
+        split; [reflexivity|]. split; [reflexivity|]. intro F; exact F.
+      * right; right; right. exists [r1], [r2].
+        assert (T1 : tt r1) by (apply fnn_tt; [apply (N1 EDEPTH C1) | assumption | assumption]).
+        assert (T2 : tt r2) by (apply fnn_tt; [apply (N2 EDEPTH C2) | assumption | congruence]).
+        repeat split; try (apply accok1; assumption); discriminate.
+    + destruct O as (E & CT & _). right; right.
+      split; [apply eqxn_set_pos; exact E|]. split; [eapply ctx3_trans; [apply ctx3_set_pos | exact CT]|].
+      left. split; [reflexivity|]. split; [reflexivity|]. intro F; exact F.
+    + right; right. exact I.
+  - (* KStar *)
+    destruct (n_kids a) as [|x [|? ?]] eqn:Kia; try discriminate HK.
+    destruct (n_kids b) as [|y [|? ?]] eqn:Kib; try discriminate HK.
+    apply andb_true_iff in HK as [HK HS].
+    apply (finishW i j c a b False fa fb psq1 psq2 s s' G1 G2); try (rewrite ?Ka, ?Kb; reflexivity); try assumption.
+    { intros [d q]. apply (atrue_kind_false g1 ne d i a G1 (or_intror Ka) q). }
+    rewrite (body_rep (P1 fa) fa a x s (or_introl Ka) Pa Kia), (body_rep (P2 fb) fb b y s' (or_introl Kb) Pb Kib).
+    rewrite Ka, Kb.
+    assert (SR : sep_relW (n_sep a) (n_sep b)).
+    { unfold sep_ok in HS. unfold sep_relW. destruct (n_sep a), (n_sep b); try discriminate; auto. }
+    pose proof (rep_simW x y (n_sep a) (n_sep b) false fa fb L HK SR fa fb true [] [] s s' Es Ks) as Z.
+    destruct Z as [Z|[Z|Z]]; [rewrite Z; left; reflexivity | rewrite Z; right; left; reflexivity |].
+    destruct (rep_loop (P1 fa) x (n_sep a) false fa true [] s) as [r1 s1|s1|w1],
+             (rep_loop (P2 fb) y (n_sep b) false fb true [] s') as [r2 s2|s2|w2]; try contradiction.
+    + destruct Z as (E & CT & d1 & d2 & E1 & E2 & D & _). cbn [app] in E1, E2. subst r1 r2.
+      destruct D as (D1 & D2 & D3). right; right. split; [exact E|]. split; [exact CT|].
+      destruct d1 as [|v1 d1], d2 as [|v2 d2].
+      * right; right; left. repeat split; try (left; assumption). intro F; exact F.
+      * exfalso. assert (X : v2 :: d2 = []) by (apply D3; reflexivity). discriminate.
+      * exfalso. assert (X : v1 :: d1 = []) by (apply D3; reflexivity). discriminate.
+      * right; right; right. exists (v1 :: d1), (v2 :: d2). repeat split; try assumption; discriminate.
+    + right; right. exact Z.
+    + right; right. exact I.
+  - (* KPlus *)
+    destruct (n_kids a) as [|x [|? ?]] eqn:Kia; try discriminate HK.
+    destruct (n_kids b) as [|y [|? ?]] eqn:Kib; try discriminate HK.
+    apply andb_true_iff in HK as [HK HS].
+    apply (finishW i j c a b (exists d, atrue g1 ne d x = true) fa fb psq1 psq2 s s' G1 G2);
+      try (rewrite ?Ka, ?Kb; reflexivity); try assumption.
+    { intros [d q]. apply (atrue_plus g1 ne d i a x G1 Ka Kia q). }
+    rewrite (body_rep (P1 fa) fa a x s (or_intror Ka) Pa Kia), (body_rep (P2 fb) fb b y s' (or_intror Kb) Pb Kib).
+    rewrite Ka, Kb.
+    assert (SR : sep_relW (n_sep a) (n_sep b)).
+    { unfold sep_ok in HS. unfold sep_relW. destruct (n_sep a), (n_sep b); try discriminate; auto. }
+    pose proof (rep_simW x y (n_sep a) (n_sep b) true fa fb L HK SR fa fb true [] [] s s' Es Ks) as Z.
+    destruct Z as [Z|[Z|Z]]; [rewrite Z; left; reflexivity | rewrite Z; right; left; reflexivity |].
+    destruct (rep_loop (P1 fa) x (n_sep a) true fa true [] s) as [r1 s1|s1|w1],
+             (rep_loop (P2 fb) y (n_sep b) true fb true [] s') as [r2 s2|s2|w2]; try contradiction.
+    + destruct Z as (E & CT & d1 & d2 & E1 & E2 & D & F). cbn [app] in E1, E2. subst r1 r2.
+      destruct D as (D1 & D2 & D3). right; right. split; [exact E|]. split; [exact CT|].
+      destruct d1 as [|v1 d1], d2 as [|v2 d2].
+      * right; right; left. repeat split; try (right; assumption).
+        intro q. apply F; [|reflexivity]. split; [reflexivity|]. split; [reflexivity | exact q].
+      * exfalso. assert (X : v2 :: d2 = []) by (apply D3; reflexivity). discriminate.
+      * exfalso. assert (X : v1 :: d1 = []) by (apply D3; reflexivity). discriminate.
+      * right; right; right. exists (v1 :: d1), (v2 :: d2). repeat split; try assumption; discriminate.
+    + right; right. exact Z.
+    + right; right. exact I.
+  - (* KEOF *)
+    apply (step_termW i j c a b fa fb psq1 psq2 s s' L G1 G2); try assumption; rewrite ?Ka, ?Kb; reflexivity.
+  - (* KStr *)
+    destruct (term_eqb_eq _ _ HK) as [E _].
+    apply (step_termW i j c a b fa fb psq1 psq2 s s' L G1 G2); try assumption; rewrite ?Ka, ?Kb; try reflexivity; exact E.
+  - (* KRegex *)
+    destruct (term_eqb_eq _ _ HK) as [E _].
+    apply (step_termW i j c a b fa fb psq1 psq2 s s' L G1 G2); try assumption; rewrite ?Ka, ?Kb; try reflexivity; exact E.
+Qed.
+
 End StepW.
 End SoundW.
